@@ -918,14 +918,14 @@ Definition quiescent_case (l : list Z) : list Z :=
   | _ => [ERR_MALFORMED; 4]
   end.
 
-Definition conform_case (l : list Z) : list Z :=
+Definition conform_case_seq (l : list Z) : list Z :=
   match l with 4 :: _ => [] | _ =>
   match dec_case l with
   | Some (_, c, tr) => conform_run c (init_state c) [] 0 tr
   | None => [ERR_MALFORMED; 0]
   end end.
 
-Definition monitor_case (l : list Z) : list Z :=
+Definition monitor_case_seq (l : list Z) : list Z :=
   match l with 4 :: _ => quiescent_case l | _ =>
   match dec_case l with
   | Some (flags, c, tr) =>
